@@ -18,7 +18,11 @@ runs on the Rust LLAMA core and on the Rust machine runtime):
       chain shapes (a near call open in one page while a far call runs in another); checked at *every*
       call..return pair of the program, on the Python core, the Rust LLAMA core (LlamaExecutor on the same hash
       memory) and the Rust machine runtime (CoreRuntime.step, SIO stub on/off, callees that the runtime services
-      itself and returns from) (see c05_pairs.py).
+      itself and returns from) (see c05_pairs.py).  Round 4: *where the system stack lives* is a generated
+      dimension of the machine-runtime programs (memory-map configuration + S): RAM overlays / a memory card /
+      host-delegated ranges with S at their end, start or inside, the internal-RAM mirror window (aliases, 32 KiB
+      boundaries, window edges), frames wrapping through address 0 (Rust cores); an operation the runtime rejects
+      may precede the program; a third of the runtime programs are also run through bulk step(n) calls.
 
   (d) "hist": histories on ONE long-lived executor instance (Python Emulator; Rust LlamaExecutor session): the
       code bytes at a few fixed addresses change between executions -- rewritten by the host through the memory
@@ -53,7 +57,9 @@ RULE = ("single: (prefix|none) x control-flow opcode x address class x (C,Z) x o
         "programs (CALL..RET, CALLF..RETF, IR..RETI, nested trees and chains mixing near/far/interrupt frames) "
         "with stack-neutral bodies (incl. computed jumps through push+RET/RETF), each executed on the Python core, "
         "the Rust LLAMA core and (separate stream, plainly mapped memory, SIO stub on/off, runtime-serviced "
-        "callees) the Rust CoreRuntime. Non-trivial = single/"
+        "callees; stack in plain RAM / RAM overlay / memory card / host-delegated range / internal-RAM mirror alias "
+        "at region ends, starts, 32 KiB alias boundaries / wrapping through address 0; optionally after a rejected "
+        "runtime operation; optionally re-run through bulk step(n)) the Rust CoreRuntime. Non-trivial = single/"
         "other: the PC reached differs from addr+len, or the instruction's last byte lies within 4 bytes of a "
         "64 KiB page end (or it straddles one / wraps 0xFFFFF); pair: always (a call and its return were "
         "executed). Distinct = single: (prefix, opcode, address class, CZ, operand class); other: (prefix, "
@@ -85,15 +91,36 @@ ASSUMPTIONS = [
     "including the wrap from 0xFFFFF into the internal window that the emulator's linear fetch performs); the "
     "instruction is followed by NOP bytes (look-ahead dependence is C01's subject)",
     "a Python exception while executing a valid encoding is not a C05 verdict (label python-exception)",
-    "pair programs keep S and U at least 0x40 away from 0x00000/0xFFFFF (stack wrap through the top of memory "
-    "is a memory-model question, C11) and away from all code; callee bodies follow one fixed path (straight-line "
-    "plus computed jumps through push+RET/RETF to the next item)",
+    "pair programs on the Python core keep S and U at least 0x40 away from 0x00000/0xFFFFF (there a stack wrap "
+    "addresses different cells of the harness memory model for push and pop) and away from all code; on the Rust "
+    "cores (S masked to 20 bits, frames pushed and popped byte by byte) a class of programs starts with S so small "
+    "that frames wrap through address 0 to 0xFFFFF (never reaching the interrupt vector 0xFFFFA-0xFFFFC when the "
+    "program uses IR); callee bodies follow one fixed path (straight-line plus computed jumps through "
+    "push+RET/RETF to the next item)",
+    "the system stack of a CoreRuntime program may live in a RAM overlay (add_ram_overlay), a memory card "
+    "(load_memory_card), a host-delegated range (set_python_ranges + set_host_read/set_host_write; the harness's "
+    "host stores each written byte and returns the stored byte, 0 if never written) or an alias of the internal-RAM "
+    "mirror window 0x80000-0xB7FFF, with S at the region's end / start / inside / at a 32 KiB alias boundary: each "
+    "of them is byte-addressable memory, frames are built byte by byte, so the pair law applies unchanged; code "
+    "never lies inside such a region nor in cells aliased by the stack neighbourhood",
+    "a violation seen with the stack in such memory is re-run with an ordinary RAM stack (same program): the "
+    "fingerprint gets the suffix ' stack:<kind>' only if it does not persist there (attribution only; the control "
+    "run never decides whether something is a violation)",
+    "computed jumps push their target with a multi-byte store (MV [--S],BA / MV [--S],X): in byte-granular memory "
+    "that store is C11's subject; such programs end unjudged (cj-astray) and 3/4 of the special-stack programs "
+    "carry NOPs in place of computed jumps",
+    "an operation the runtime rejects or ignores before the program (load_memory_card with an unsupported size, "
+    "load_snapshot of a missing file, set_device_model(Iq7000), add_ram_overlay of size 0, step(0)) must leave no "
+    "trace: the law is applied unchanged; if the operation is not rejected the program is not judged",
+    "bulk execution: the state after step(n1)+step(n2)+.. (n1+n2+..= the program's instruction count) is the state "
+    "after the top-level call's matching return, so the pair law is applied to it as it stands ('[bulk step(n)]'); "
+    "only programs whose single-stepped run obeyed the law are re-run this way",
     "the pair law is applied to each executing core on its own (Python Emulator, Rust LlamaExecutor, Rust "
     "CoreRuntime.step); cores are never compared with each other (C06); an executor error ends a program unjudged",
     "a computed jump through RET/RETF is part of the stack-neutral body, not a pair: if it misses its continuation "
     "the program is labelled cj-astray and not judged (no statement covers a return in isolation)",
-    "CoreRuntime programs run with timers off and ISR=0 (no hardware interrupts: C12) in memory the PC-E500 model "
-    "maps plainly (pages 1-7, 0xC-0xF, stacks also in 0xB8100-0xBFF00)",
+    "CoreRuntime programs run with timers off and ISR=0 (no hardware interrupts: C12); their code lies in memory "
+    "the PC-E500 model maps plainly (pages 1-7, 0xC-0xF)",
     "with CoreRuntime::enable_sio_stub() (device.rs enables it for every PC-E500 machine) a call to 0xEB030/"
     "0xEB31C/0xEB33D is a call whose matching return is performed by the runtime (SioStub::force_return_auto): "
     "resume address, S and IMR must be restored; F is not compared (the serviced routine reports through C)",
@@ -283,12 +310,32 @@ def addr_grid(st: S.Stream, length: int, thorough: bool) -> List[int]:
     return out
 
 
-def operand_variants(st: S.Stream, op: int, addr: int, length: int, n_rand: int) -> List[Tuple[str, bytes, Dict[str, int]]]:
-    """[(operand class, operand bytes, extra register values)]"""
+def operand_variants(st: S.Stream, op: int, addr: int, length: int, n_rand: int,
+                     n_fixed: int = 0, derived: bool = False) -> List[Tuple[str, bytes, Dict[str, int]]]:
+    """[(operand class, operand bytes, extra register values)].  For 16-/20-bit immediate targets the shared
+    landmark values (gen_enc.landmark_values) are appended as classes "lm:<tag>": those derived from the
+    instruction's own address (self-1, self+1..7, the same offset in the neighbouring page) when `derived`, and
+    `n_fixed` of the fixed landmarks (-1: all; vectors, region bases of the machine map, 0/FFFFF ...)."""
     out: List[Tuple[str, bytes, Dict[str, int]]] = []
 
     def le(v: int, n: int) -> bytes:
         return bytes((v >> (8 * i)) & 0xFF for i in range(n))
+
+    def landmarks(n: int) -> None:
+        lms = G.landmark_values(addr)
+        fixed = [x for x in lms if x[0].startswith("fixed:")]
+        picks = [x for x in lms if not x[0].startswith("fixed:")] if derived else []
+        if n_fixed < 0 or n_fixed >= len(fixed):
+            picks += fixed
+        elif n_fixed > 0:
+            k = st.below(len(fixed))
+            picks += [fixed[(k + 7 * j) % len(fixed)] for j in range(n_fixed)]
+        seen = {o for _, o, _ in out}
+        for tag, v in picks:
+            o = le(v & (0xFFFF if n == 2 else 0xFFFFFF), n)
+            if o not in seen:
+                seen.add(o)
+                out.append(("lm:" + tag, o, {}))
 
     if op in (0x02, 0x04, 0x14, 0x15, 0x16, 0x17):
         for name, v in (("0000", 0), ("0001", 1), ("FFFF", 0xFFFF), ("8000", 0x8000),
@@ -296,6 +343,7 @@ def operand_variants(st: S.Stream, op: int, addr: int, length: int, n_rand: int)
             out.append((name, le(v, 2), {}))
         for _ in range(n_rand):
             out.append(("rand", le(st.u32() & 0xFFFF, 2), {}))
+        landmarks(2)
     elif op in (0x03, 0x05):
         for name, v in (("000000", 0), ("0FFFFF", 0xFFFFF), ("hi-nibble", 0xF00000 | (st.u32() & M20)),
                         ("FFFFFF", 0xFFFFFF), ("self", addr & M20), ("fallthrough", (addr + length) & M20),
@@ -303,6 +351,7 @@ def operand_variants(st: S.Stream, op: int, addr: int, length: int, n_rand: int)
             out.append((name, le(v, 3), {}))
         for _ in range(n_rand):
             out.append(("rand", le(st.u32() & 0xFFFFFF, 3), {}))
+        landmarks(3)
     elif op in (0x12, 0x13) or 0x18 <= op <= 0x1F:
         for name, v in (("00", 0), ("01", 1), ("len", length), ("7F", 0x7F), ("80", 0x80), ("FF", 0xFF)):
             out.append((name, bytes([v]), {}))
@@ -382,7 +431,8 @@ def _shard_single(task: Tuple[int, int, str]) -> Report:
             rep.case(None, ["head:rejected-by-decoder"])
             continue
         for addr in addr_grid(st, ln, thorough):
-            for ocls, operand, xregs in operand_variants(st, op, addr, ln, n_rand):
+            for ocls, operand, xregs in operand_variants(st, op, addr, ln, n_rand, n_fixed=-1 if thorough else 3,
+                                                         derived=True):
                 for cz in range(4):
                     case = build_single(st, pre, op, operand, addr, cz, xregs)
                     res = exec_single(case)
@@ -450,7 +500,7 @@ def _shard_pair(task: Tuple[int, int, str, int, str]) -> Report:
         if case0 is None:
             rep.filtered += 1
             continue
-        for core in (("py", "rs") if profile == "full" else ("rt",)):
+        for core in (case0.get("cores") or ("py", "rs") if profile == "full" else ("rt",)):
             case = {**case0, "core": core}
             res = P.exec_program(case)
             for v in res["viol"]:
@@ -551,7 +601,11 @@ def run(ctx: Ctx) -> Report:
         rep.inconclusive.append(f"{n_exc} case(s) raised a Python exception while executing and were not judged")
     for need in ("kind:single", "kind:other", "kind:pair", "kind:hist", "hist:revisit:operand-bytes-changed",
                  "hist:revisit:opcode-changed-under-same-PRE", "hist:revisit:unchanged",
-                 "hist:revisit:operand-bytes-changed:via-store", "hist:pair"):
+                 "hist:revisit:operand-bytes-changed:via-store", "hist:pair",
+                 "stack:host", "stack:ovl", "stack:mirror", "stack:wrap", "frame:IR:host:inside",
+                 "frame:IR:ovl:straddles", "frame:IR:mirror:straddles-32k", "frame:IR:wrap:wraps",
+                 "frame:CALL:host:inside", "frame:CALLF:ovl:straddles", "stack-io:host-written",
+                 "stack-io:host-read", "stack-io:overlay-written", "bulk:chunks-2", "after-rejected:card"):
         if not rep.labels.get(need):
             raise HarnessError(f"no cases of {need} were generated")
     return rep
